@@ -42,46 +42,74 @@ def run(repo, rep, tier):
 
 
 def d1(repo, rep):
+    """refusals of Epoch._check_values decided on the path conditions of its symbolic evaluation (no statement shapes):
+    which (year, month, day) reach `raise ValueError`, the month-length limit as a decision table over
+    (month == 2, is_leap(year)), and the month-length table itself"""
+    from ..rules import assume, formula_dnf
     rep.rule("R-RANGE-REFUSE", "a dominating test with the property-stated bound reaches raise ValueError")
     q = "Epoch._check_values"
     rep.fn(MOD, q)
     fn = repo.func(MOD, q)
     site = "Epoch." + q
-    tests = []
-    for node in ast.walk(fn):
-        if isinstance(node, ast.If) and any(isinstance(s, ast.Raise) and exc_name(s) == "ValueError" for s in node.body):
-            tests.append(norm_text(node.test).replace(" ", ""))
-    want = {"year<-4712": "year before -4712", "day<1": "day below 1"}
-    for frag, what in want.items():
-        if any(frag in t for t in tests):
+    Y, M, D = T.sym("NUM_Y"), T.sym("NUM_M"), T.sym("NUM_D")
+    at = {"self": T.sym("self")}
+    if fn.args.vararg:
+        at[fn.args.vararg.arg] = ("tuple", Y, M, D)
+    else:
+        names = [a.arg for a in fn.args.args if a.arg != "self"]
+        at.update(dict(zip(names, (Y, M, D))))
+    outs = outcomes(repo, MOD, q, arg_terms=at)
+    raises = [o for o in outs if o.kind == "raise" and o.value == ("str", "ValueError")]
+    atoms = set()
+    for o in raises:
+        for conj in (formula_dnf(o.cond) or []):
+            for a, pol in conj:
+                if pol:
+                    atoms.add(a)
+    def refused(op, var, bound):
+        for a in atoms:
+            if a[0] == "cmp" and a[2] == var and a[3] == T.num(bound) and a[1] == op:
+                return True
+        return False
+    for frag, ok_, what in (("year<-4712", refused("Lt", Y, -4712), "year before -4712"), ("day<1", refused("Lt", D, 1), "day below 1")):
+        if ok_:
             rep.ok("R-RANGE-REFUSE", site + ":" + frag, "refused with ValueError")
         else:
             rep.violation("R-RANGE-REFUSE", site, "refusal:" + frag, "%s is not refused with ValueError (`%s`)" % (what, frag))
-    if any(t.replace("(", "").replace(")", "") in ("day>=limit_day+1", "day>limit_day", "day>=1+limit_day") or "limit_day" in t for t in tests):
-        rep.ok("R-RANGE-REFUSE", site + ":month-length", "day >= month length + 1 refused with ValueError")
-    else:
+    # the month-length refusal: day >= limit + 1 (or day > limit), limit built from a 12-entry table
+    limit = None
+    for a in atoms:
+        if a[0] == "cmp" and a[2] == D and a[1] in ("GtE", "Gt") and any(x[0] in ("list", "tuple") and len(x) == 13 for x in T.walk(a[3])):
+            limit = T.add(a[3], T.num(-1)) if a[1] == "GtE" else a[3]
+    if limit is None:
         rep.violation("R-RANGE-REFUSE", site, "refusal:month-length", "a day beyond the month's length is not refused")
-    # the limit: table[month - 1], February 29 under is_leap(year)
-    lists = [n for n in ast.walk(fn) if isinstance(n, ast.Assign) and isinstance(n.value, ast.List) and len(n.value.elts) == 12]
-    ok_tab = False
-    for l in lists:
-        try:
-            vals = [e.value for e in l.value.elts]
-        except AttributeError:
-            continue
-        if vals == list(calendar.mdays[1:]):
-            ok_tab = True
-            tabname = l.targets[0].id
+        return
+    rep.ok("R-RANGE-REFUSE", site + ":month-length", "day >= month length + 1 refused with ValueError")
+    tabs = {x for x in T.walk(limit) if x[0] in ("list", "tuple") and len(x) == 13}
+    ok_tab = len(tabs) == 1 and [e[1] for e in next(iter(tabs))[1:] if e[0] == "num"] == list(calendar.mdays[1:])
     if ok_tab:
         rep.ok("R-TABLE-AUDIT", site + ":maxdays", "month lengths == calendar.mdays[1:]")
     else:
         rep.violation("R-TABLE-AUDIT", site, "maxdays", "month-length table differs from the calendar (31,28,31,30,31,30,31,31,30,31,30,31)")
+    # decision table over (month == 2, is_leap(year))
+    months = {x for x in T.walk(limit) if x[0] == "cmp" and x[1] == "Eq" and x[3] == T.num(2)}
+    leaps = {x for x in T.walk(limit) if x[0] == "call" and x[1] == "Epoch.Epoch.is_leap"}
     feb = False
-    for node in ast.walk(fn):
-        if isinstance(node, ast.If) and norm_text(node.test).replace(" ", "") == "month==2":
-            inner = [n for n in ast.walk(node) if isinstance(n, ast.If) and "Epoch.is_leap(year)" in norm_text(n.test)]
-            sets29 = [n for n in ast.walk(node) if isinstance(n, ast.Assign) and isinstance(n.value, ast.Constant) and n.value.value == 29]
-            feb = bool(inner and sets29)
+    if len(months) == 1 and len(leaps) == 1 and next(iter(leaps))[2] == Y:
+        mtest, ltest = next(iter(months)), next(iter(leaps))
+        feb = True
+        for is_feb in (True, False):
+            for is_leap_ in (True, False):
+                def decide(c, is_feb=is_feb, is_leap_=is_leap_):
+                    if c == mtest:
+                        return is_feb
+                    if c == ltest:
+                        return is_leap_
+                    return None
+                v = assume(limit, decide)
+                want29 = is_feb and is_leap_
+                if want29 != (v == T.num(29)) or (not want29 and not (v[0] == "idx" and v[1][0] in ("list", "tuple"))):
+                    feb = False
     if feb:
         rep.ok("R-DEP", site + ":february", "February limit is 29 exactly when Epoch.is_leap(year)")
     else:
@@ -210,7 +238,18 @@ def d34(repo, rep):
         top = F[1:] if F[0] == "add" else (F,)
         consts["offset"] = sum((p[1] for p in top if p[0] == "num"), Fraction(0))
     # century correction control-dependent on not is_julian
-    cent = [x for x in T.walk(F) if x[0] == "phi" and x[3] == T.ZERO and x[1][0] == "not" and x[1][1][0] == "call" and x[1][1][1] == "Epoch.Epoch.is_julian"]
+    # either polarity: phi(not is_julian, B, 0) or phi(is_julian, 0, B)
+    cent = []
+    for x in T.walk(F):
+        if x[0] != "phi":
+            continue
+        c_ = x[1]
+        neg = c_[0] == "not"
+        core = c_[1] if neg else c_
+        if core[0] == "call" and core[1] == "Epoch.Epoch.is_julian":
+            greg, jul = (x[2], x[3]) if neg else (x[3], x[2])
+            if jul == T.ZERO:
+                cent.append(("phi", c_, greg, jul))
     if cent and "century" in consts:
         A = consts["century"]
         want = T.add(T.num(2), T.neg(A), T.call("floor", T.mul(T.num(Fraction(1, 4)), A)))
